@@ -370,8 +370,8 @@ def validate_before_decode(ctx):
 
 
 def _is_sharing_guard(ctx, fi) -> bool:
-    """A function that walks list / mapping / tag containers, remembers id() of each in an order-blind set and raises an allowed
-    error when an identity is met again."""
+    """A function that walks list / mapping / tag containers and byte / text strings, remembers id() of each in an order-blind set
+    and raises an allowed error when an identity is met again."""
     if not hasattr(fi, "node"):
         return False
     node = fi.node
@@ -395,7 +395,7 @@ def _is_sharing_guard(ctx, fi) -> bool:
                     kinds.add(x.id)
                 elif isinstance(x, ast.Attribute):
                     kinds.add(x.attr)
-    covers = "list" in kinds and ({"Mapping", "dict"} & kinds) and "CBORTag" in kinds
+    covers = "list" in kinds and ({"Mapping", "dict"} & kinds) and "CBORTag" in kinds and "bytes" in kinds and "str" in kinds
     loops = any(isinstance(n, (ast.While, ast.For)) for n in ast.walk(node)) or any(
         isinstance(n, ast.Call) and isinstance(n.func, (ast.Name, ast.Attribute)) and ast.unparse(n.func).split(".")[-1] == fi.name for n in ast.walk(node))
     return bool(tested and covers and loops)
